@@ -294,17 +294,18 @@ theorem tExit_good (cfg : Cfg) (p : Nat → Nat → Bool) (m s : Nat) (st : St) 
       exact g.armed s' m'
 
 
-theorem exits_good (cfg : Cfg) (p : Nat → Nat → Bool) (m : Nat) (xs : List Nat) (st : St) (h : GoodIf cfg p st) :
-    GoodIf cfg p (exits m xs st) := by
-  induction xs generalizing st with
-  | nil => exact h
-  | cons x xs ih => exact ih _ (tExit_good cfg p m x st h)
+theorem act_good (cfg : Cfg) (p : Nat → Nat → Bool) (m : Nat) (a : Bool × Nat) (st : St) (h : GoodIf cfg p st) :
+    GoodIf cfg p (act cfg m st a) := by
+  unfold act
+  split
+  · exact tEnter_good cfg p m a.2 st h
+  · exact tExit_good cfg p m a.2 st h
 
-theorem enters_good (cfg : Cfg) (p : Nat → Nat → Bool) (m : Nat) (ns : List Nat) (st : St) (h : GoodIf cfg p st) :
-    GoodIf cfg p (enters cfg m ns st) := by
-  induction ns generalizing st with
+theorem acts_good (cfg : Cfg) (p : Nat → Nat → Bool) (m : Nat) (prog : List (Bool × Nat)) (st : St)
+    (h : GoodIf cfg p st) : GoodIf cfg p (acts cfg m prog st) := by
+  induction prog generalizing st with
   | nil => exact h
-  | cons x xs ih => exact ih _ (tEnter_good cfg p m x st h)
+  | cons x xs ih => exact ih _ (act_good cfg p m x st h)
 
 theorem trigger_good (cfg : Cfg) (p : Nat → Nat → Bool) (m e : Nat) (st : St) (h : GoodIf cfg p st) :
     GoodIf cfg p (trigger cfg m e st) := by
@@ -312,9 +313,8 @@ theorem trigger_good (cfg : Cfg) (p : Nat → Nat → Bool) (m e : Nat) (st : St
   split
   · exact h
   · exact h
-  · rename_i xs ns d _
-    apply enters_good
-    have h1 := exits_good cfg p m xs st h
+  · rename_i prog d _ _
+    have h1 := acts_good cfg p m prog st h
     intro hl
     have g := h1 hl
     exact ⟨g.typed, g.owned, g.due, g.ok, g.now, g.armed, g.pend, g.owed⟩
@@ -418,26 +418,28 @@ theorem tEnter_evolve (cfg : Cfg) (m s : Nat) (st : St) : Evolve st (tEnter cfg 
   · simp only [hT, if_false]
     exact Evolve.of_eq rfl rfl
 
-theorem exits_evolve (m : Nat) (xs : List Nat) (st : St) : Evolve st (exits m xs st) := by
-  induction xs generalizing st with
-  | nil => exact Evolve.refl st
-  | cons x xs ih => exact (tExit_evolve m x st).trans (ih _)
+theorem act_evolve (cfg : Cfg) (m : Nat) (a : Bool × Nat) (st : St) : Evolve st (act cfg m st a) := by
+  unfold act
+  split
+  · exact tEnter_evolve cfg m a.2 st
+  · exact tExit_evolve m a.2 st
 
-theorem enters_evolve (cfg : Cfg) (m : Nat) (ns : List Nat) (st : St) : Evolve st (enters cfg m ns st) := by
-  induction ns generalizing st with
+theorem acts_evolve (cfg : Cfg) (m : Nat) (prog : List (Bool × Nat)) (st : St) : Evolve st (acts cfg m prog st) := by
+  induction prog generalizing st with
   | nil => exact Evolve.refl st
-  | cons x xs ih => exact (tEnter_evolve cfg m x st).trans (ih _)
+  | cons x xs ih => exact (act_evolve cfg m x st).trans (ih _)
 
 theorem trigger_evolve (cfg : Cfg) (m e : Nat) (st : St) : Evolve st (trigger cfg m e st) := by
   unfold trigger
   split
   · exact Evolve.refl st
   · exact Evolve.refl st
-  · rename_i xs ns d _
-    have e1 := exits_evolve m xs st
-    have e2 : Evolve (exits m xs st)
-        { exits m xs st with cur := fun m' => if m' = m then d else (exits m xs st).cur m' } := Evolve.of_eq rfl rfl
-    exact (e1.trans e2).trans (enters_evolve cfg m ns _)
+  · rename_i prog d _ _
+    have e1 := acts_evolve cfg m prog st
+    have e2 : Evolve (acts cfg m prog st)
+        { acts cfg m prog st with cur := fun m' => if m' = m then d else (acts cfg m prog st).cur m' } :=
+      Evolve.of_eq rfl rfl
+    exact e1.trans e2
 
 theorem triggers_evolve (cfg : Cfg) (evs : List (Nat × Nat)) (st : St) : Evolve st (triggers cfg evs st) := by
   induction evs generalizing st with
@@ -511,11 +513,11 @@ theorem fireStart_good (cfg : Cfg) (st : St) (i : Nat) (t : Timer) (hi : st.time
   · intro s' m'
     rw [hmon]; exact g.owed s' m'
 
-theorem handlerEnd_good (cfg : Cfg) (m s : Nat) (st : St) (h : GoodIf cfg (upd (fun _ _ => false) s m true) st) :
-    GoodIf cfg (fun _ _ => false) (handlerEnd cfg m s st) := by
+theorem handlerEnd_good (cfg : Cfg) (m s : Nat) (r : Bool) (st : St)
+    (h : GoodIf cfg (upd (fun _ _ => false) s m true) st) :
+    GoodIf cfg (fun _ _ => false) (handlerEnd cfg m s r st) := by
   unfold handlerEnd
-  have hpt : (monOf (specOf cfg) st.log).pend s m = true → True := fun _ => trivial
-  by_cases hr : cfg.raises s = true
+  by_cases hr : (cfg.raises s || r) = true
   · by_cases hro : (cfg.async && cfg.onExc) = true
     · simp only [hr, hro, if_true]
       intro hl
@@ -546,7 +548,7 @@ theorem handlerEnd_good (cfg : Cfg) (m s : Nat) (st : St) (h : GoodIf cfg (upd (
       · intro s' m'
         simp only [List.foldl_cons, List.foldl_nil, mstep, upd, g.owed, specOf_routes, hro']
         by_cases hk : s' = s ∧ m' = m <;> simp [hk]
-  · have hr' : cfg.raises s = false := by simpa using hr
+  · have hr' : (cfg.raises s || r) = false := by simpa using hr
     simp only [hr', Bool.false_eq_true, if_false]
     intro hl
     have g := h hl
@@ -561,7 +563,7 @@ theorem handlerEnd_good (cfg : Cfg) (m s : Nat) (st : St) (h : GoodIf cfg (upd (
     · intro s' m'
       simp only [List.foldl_cons, List.foldl_nil, mstep, g.owed]
 
-theorem handlerEnd_evolve (cfg : Cfg) (m s : Nat) (st : St) : Evolve st (handlerEnd cfg m s st) := by
+theorem handlerEnd_evolve (cfg : Cfg) (m s : Nat) (r : Bool) (st : St) : Evolve st (handlerEnd cfg m s r st) := by
   unfold handlerEnd
   split
   · split <;> exact Evolve.of_eq rfl rfl
@@ -592,9 +594,15 @@ abbrev F : Nat → Nat → Bool := fun _ _ => false
 def fireStart (st : St) (i : Nat) (t : Timer) : St :=
   ({ st with timers := setPhase st.timers i .running }).emit (.fired t.m t.s)
 
-/-- … and the state in which it ends (before the timer is marked finished) -/
+/-- an exception escapes from the event the handler triggers -/
+def handlerRaises (cfg : Cfg) (st : St) (i : Nat) (t : Timer) : Bool :=
+  match cfg.action t.s with
+  | some e => triggerRaises cfg t.m e (fireStart st i t)
+  | none => false
+
+/-- the state in which the handler ends (before the timer is marked finished) -/
 def fireBody (cfg : Cfg) (st : St) (i : Nat) (t : Timer) : St :=
-  handlerEnd cfg t.m t.s
+  handlerEnd cfg t.m t.s (handlerRaises cfg st i t)
     (match cfg.action t.s with
       | some e => trigger cfg t.m e (fireStart st i t)
       | none => fireStart st i t)
@@ -602,7 +610,7 @@ def fireBody (cfg : Cfg) (st : St) (i : Nat) (t : Timer) : St :=
 theorem fire_eq (cfg : Cfg) (i : Nat) (st : St) (t : Timer) (hi : st.timers[i]? = some t) (hw : t.phase = .waiting) :
     fire cfg i st = { fireBody cfg st i t with timers := setPhase (fireBody cfg st i t).timers i .finished } := by
   unfold fire
-  simp only [hi, hw, if_true, fireBody, fireStart]
+  simp only [hi, hw, if_true, fireBody, fireStart, handlerRaises]
   cases cfg.action t.s <;> rfl
 
 theorem fireStart_evolve (st : St) (i : Nat) (t : Timer) : Evolve st (fireStart st i t) :=
@@ -611,8 +619,8 @@ theorem fireStart_evolve (st : St) (i : Nat) (t : Timer) : Evolve st (fireStart 
 theorem fireBody_evolve (cfg : Cfg) (st : St) (i : Nat) (t : Timer) : Evolve st (fireBody cfg st i t) := by
   unfold fireBody
   cases cfg.action t.s with
-  | none => exact (fireStart_evolve st i t).trans (handlerEnd_evolve cfg _ _ _)
-  | some e => exact ((fireStart_evolve st i t).trans (trigger_evolve cfg _ _ _)).trans (handlerEnd_evolve cfg _ _ _)
+  | none => exact (fireStart_evolve st i t).trans (handlerEnd_evolve cfg _ _ _ _)
+  | some e => exact ((fireStart_evolve st i t).trans (trigger_evolve cfg _ _ _)).trans (handlerEnd_evolve cfg _ _ _ _)
 
 /-- at the end of the handler its timer is (still) not waiting -/
 theorem fireBody_notWaiting (cfg : Cfg) (st : St) (i : Nat) (t : Timer) (hi : st.timers[i]? = some t) :
@@ -622,8 +630,8 @@ theorem fireBody_notWaiting (cfg : Cfg) (st : St) (i : Nat) (t : Timer) (hi : st
   have ev : Evolve (fireStart st i t) (fireBody cfg st i t) := by
     unfold fireBody
     cases cfg.action t.s with
-    | none => exact handlerEnd_evolve cfg _ _ _
-    | some e => exact (trigger_evolve cfg _ _ _).trans (handlerEnd_evolve cfg _ _ _)
+    | none => exact handlerEnd_evolve cfg _ _ _ _
+    | some e => exact (trigger_evolve cfg _ _ _).trans (handlerEnd_evolve cfg _ _ _ _)
   intro t' ht'
   obtain ⟨t2, ht2, _, _, _, hw2⟩ := ev.old i _ h0
   rw [ht'] at ht2
@@ -1132,20 +1140,19 @@ theorem tEnter_frame (cfg : Cfg) (m m' s : Nat) (st : St) (hne : m ≠ m') (hty 
       simp [List.getElem?_append_left hlt]
   · simp only [hT, if_false]; rfl
 
-theorem exits_frame (m m' : Nat) (xs : List Nat) (st : St) (hne : m ≠ m') (hty : Typed st) :
-    Frame m' st (exits m xs st) := by
-  induction xs generalizing st with
-  | nil => exact Frame.refl m' st hty
-  | cons x xs ih =>
-    have f1 := tExit_frame m m' x st hne hty
-    exact f1.trans (ih _ f1.typed)
+theorem act_frame (cfg : Cfg) (m m' : Nat) (a : Bool × Nat) (st : St) (hne : m ≠ m') (hty : Typed st) :
+    Frame m' st (act cfg m st a) := by
+  unfold act
+  split
+  · exact tEnter_frame cfg m m' a.2 st hne hty
+  · exact tExit_frame m m' a.2 st hne hty
 
-theorem enters_frame (cfg : Cfg) (m m' : Nat) (ns : List Nat) (st : St) (hne : m ≠ m') (hty : Typed st) :
-    Frame m' st (enters cfg m ns st) := by
-  induction ns generalizing st with
+theorem acts_frame (cfg : Cfg) (m m' : Nat) (prog : List (Bool × Nat)) (st : St) (hne : m ≠ m') (hty : Typed st) :
+    Frame m' st (acts cfg m prog st) := by
+  induction prog generalizing st with
   | nil => exact Frame.refl m' st hty
   | cons x xs ih =>
-    have f1 := tEnter_frame cfg m m' x st hne hty
+    have f1 := act_frame cfg m m' x st hne hty
     exact f1.trans (ih _ f1.typed)
 
 theorem trigger_frame (cfg : Cfg) (m m' e : Nat) (st : St) (hne : m ≠ m') (hty : Typed st) :
@@ -1154,46 +1161,40 @@ theorem trigger_frame (cfg : Cfg) (m m' e : Nat) (st : St) (hne : m ≠ m') (hty
   split
   · exact Frame.refl m' st hty
   · exact Frame.refl m' st hty
-  · rename_i xs ns d _
-    have f1 := exits_frame m m' xs st hne hty
-    have f2 : Frame m' (exits m xs st)
-        { exits m xs st with cur := fun m'' => if m'' = m then d else (exits m xs st).cur m'' } :=
+  · rename_i prog d _ _
+    have f1 := acts_frame cfg m m' prog st hne hty
+    have f2 : Frame m' (acts cfg m prog st)
+        { acts cfg m prog st with cur := fun m'' => if m'' = m then d else (acts cfg m prog st).cur m'' } :=
       ⟨by have hmm : ¬ m' = m := fun h => hne h.symm
           simp [hmm], fun _ => rfl, ⟨[], by simp, fun _ hr => by cases hr⟩, f1.typed⟩
-    exact (f1.trans f2).trans (enters_frame cfg m m' ns _ hne f2.typed)
+    exact f1.trans f2
 
 /-- every operation only appends to the log -/
 theorem trigger_log (cfg : Cfg) (m e : Nat) (st : St) : ∃ seg, (trigger cfg m e st).log = st.log ++ seg := by
-  have hx : ∀ xs st, ∃ seg, (exits m xs st).log = st.log ++ seg := by
-    intro xs
-    induction xs with
-    | nil => intro st; exact ⟨[], by simp [exits]⟩
+  have ha : ∀ a st, ∃ seg, (act cfg m st a).log = st.log ++ seg := by
+    intro a st
+    unfold act
+    split
+    · exact ⟨[.enter m a.2], by unfold tEnter; split <;> rfl⟩
+    · exact ⟨[.exit m a.2], (tExit_fields m a.2 st).2.2.2.1⟩
+  have hx : ∀ prog st, ∃ seg, (acts cfg m prog st).log = st.log ++ seg := by
+    intro prog
+    induction prog with
+    | nil => intro st; exact ⟨[], by simp [acts]⟩
     | cons x xs ih =>
       intro st
-      obtain ⟨seg, h⟩ := ih (tExit m x st)
-      exact ⟨.exit m x :: seg, by
-        simp only [exits, List.foldl_cons] at h ⊢
-        rw [h, (tExit_fields m x st).2.2.2.1]; simp⟩
-  have hn : ∀ ns st, ∃ seg, (enters cfg m ns st).log = st.log ++ seg := by
-    intro ns
-    induction ns with
-    | nil => intro st; exact ⟨[], by simp [enters]⟩
-    | cons x xs ih =>
-      intro st
-      obtain ⟨seg, h⟩ := ih (tEnter cfg m x st)
-      have hl : (tEnter cfg m x st).log = st.log ++ [.enter m x] := by unfold tEnter; split <;> rfl
-      exact ⟨.enter m x :: seg, by
-        simp only [enters, List.foldl_cons] at h ⊢
-        rw [h, hl]; simp⟩
+      obtain ⟨s1, h1⟩ := ha x st
+      obtain ⟨s2, h2⟩ := ih (act cfg m st x)
+      exact ⟨s1 ++ s2, by
+        simp only [acts, List.foldl_cons] at h2 ⊢
+        rw [h2, h1]; simp⟩
   unfold trigger
   split
   · exact ⟨[], by simp⟩
   · exact ⟨[], by simp⟩
-  · rename_i xs ns d _
-    obtain ⟨s1, h1⟩ := hx xs st
-    obtain ⟨s2, h2⟩ := hn ns { exits m xs st with cur := fun m' => if m' = m then d else (exits m xs st).cur m' }
-    exact ⟨s1 ++ s2, by rw [h2]; simp only; rw [h1]; simp⟩
-
+  · rename_i prog d _ _
+    obtain ⟨s1, h1⟩ := hx prog st
+    exact ⟨s1, h1⟩
 
 /-- a firing the acceptor lets through: the state was entered exactly `timeout` ticks earlier and
 nothing about (m, s) happened in between -/
@@ -1244,7 +1245,7 @@ theorem must_fire (sp : Spec) (m s : Nat) (pre mid post : List Rec) (hT : 0 < sp
 
 theorem fire_log (cfg : Cfg) (i : Nat) (st : St) (t : Timer) (hi : st.timers[i]? = some t) (hw : t.phase = .waiting) :
     ∃ mid, (fire cfg i st).log = st.log ++ .fired t.m t.s :: mid ++
-      (if cfg.raises t.s then
+      (if cfg.raises t.s || handlerRaises cfg st i t then
         (if cfg.async && cfg.onExc then [.raised t.m t.s, .routed t.m t.s] else [.raised t.m t.s])
        else [.firedEnd t.m t.s]) := by
   rw [fire_eq cfg i st t hi hw]
@@ -1261,12 +1262,13 @@ theorem fire_log (cfg : Cfg) (i : Nat) (st : St) (t : Timer) (hi : st.timers[i]?
   obtain ⟨mid, hm⟩ := hmid
   refine ⟨mid, ?_⟩
   unfold handlerEnd
-  by_cases hr : cfg.raises t.s = true
+  generalize (cfg.raises t.s || handlerRaises cfg st i t) = rr
+  by_cases hr : rr = true
   · by_cases hro : (cfg.async && cfg.onExc) = true
     · simp only [hr, hro, if_true, St.emit, hm]; simp
     · have hro' : (cfg.async && cfg.onExc) = false := by simpa using hro
       simp only [hr, hro', if_true, Bool.false_eq_true, if_false, St.emit, hm]
-  · have hr' : cfg.raises t.s = false := by simpa using hr
+  · have hr' : rr = false := by simpa using hr
     simp only [hr', Bool.false_eq_true, if_false, St.emit, hm]
 
 /-- `cancel()` on a timer whose handler has started changes nothing -/
